@@ -243,6 +243,38 @@ func scenarioPrograms() []*Program {
 		// defaults, missing and surplus arguments
 		P(&FuncDecl{&FuncLit{ID: 1, Name: "mk", Params: []Param{{Name: "a"}, {Name: "b", Def: num(2)}, {Name: "c", Def: strLit("d")}}, Body: []Stmt{rec("F1", v("a"), v("b"), v("c")), &Return{v("b")}}}},
 			rec("d", call("mk"), call("mk", num(1)), call("mk", num(1), num(5)), call("mk", num(1), num(5), num(6)), call("mk", num(1), num(5), num(6), num(7)), v("a"), v("b"), v("c"))),
+		// a default that is an expression: it sees the global at the time of each
+		// call, not a local of the caller that happens to have the same name
+		P(set("x", num(1)),
+			&FuncDecl{&FuncLit{ID: 1, Name: "mk", Params: []Param{{Name: "a", Def: num(0), DefE: v("x")}, {Name: "b", Def: num(0), DefE: plus(v("x"), 10)}}, Body: []Stmt{rec("F1", v("a"), v("b")), &Return{v("a")}}}},
+			&FuncDecl{&FuncLit{ID: 2, Name: "c1", Body: []Stmt{let("x", num(50)), &Return{call("mk")}}}},
+			rec("d1", call("mk"), call("mk", num(7)), call("c1")), set("x", num(2)), rec("d2", call("mk"), call("c1"), v("x"))),
+		// the default of a closure sees the locals of the function that made it
+		P(set("mk", fn(1, nil, let("y", num(5)), &Return{&FuncLit{ID: 2, Params: []Param{{Name: "a", Def: num(0), DefE: v("y")}}, Body: []Stmt{rec("F2", v("a")), set("y", plus(v("y"), 1)), &Return{v("a")}}}})),
+			set("c1", call("mk")), set("c2", call("mk")),
+			rec("d3", call("c1"), call("c1"), call("c2"), call("c1", num(9)), call("c1"), v("y"))),
+		// a default calling a function of the declaration scope
+		P(set("x", num(3)), &FuncDecl{&FuncLit{ID: 1, Name: "c1", Params: []Param{{Name: "i"}}, Body: []Stmt{&Return{&Bin{"*", v("i"), num(2)}}}}},
+			&If{ID: 2, Cond: &Lit{V: true}, Then: []Stmt{let("y", num(4)),
+				set("mk", &FuncLit{ID: 3, Params: []Param{{Name: "a", Def: num(0), DefE: call("c1", v("y"))}, {Name: "b", Def: num(0), DefE: call("c1", v("x"))}}, Body: []Stmt{&Return{&ListLit{[]Expr{v("a"), v("b")}}}}})}},
+			rec("d4", call("mk"), call("mk", num(1)), v("y"))),
+		// try / otherwise / finally are sibling blocks: what the try block defines is
+		// gone in the otherwise block, an assignment there defines a new local or
+		// updates the enclosing variable
+		P(set("a", num(1)),
+			&Try{ID: 1, FinID: 2, Except: true, HasOth: true, OthID: 3,
+				Body:      []Stmt{let("a", num(2)), set("b", num(3)), let("c", num(4)), rec("t", v("a"), v("b"), v("c"))},
+				Otherwise: []Stmt{rec("o1", v("a"), v("b"), v("c")), set("a", num(10)), set("b", num(11)), let("c", num(12)), rec("o2", v("a"), v("b"), v("c"))},
+				Finally:   []Stmt{rec("f", v("a"), v("b"), v("c"))}},
+			rec("out", v("a"), v("b"), v("c"))),
+		// the same inside a function, with a closure made in the otherwise block
+		P(set("mk", fn(1, nil, let("a", num(1)),
+			&Try{ID: 2, FinID: 3, HasOth: true, OthID: 4,
+				Body:      []Stmt{let("x", num(2)), set("a", plus(v("a"), 1))},
+				Otherwise: []Stmt{rec("o", v("x"), v("a")), let("x", num(7)), set("c1", fn(5, nil, set("x", plus(v("x"), 1)), &Return{v("x")}))},
+				Finally:   []Stmt{rec("f", v("x"), v("a"))}},
+			&Return{v("a")})), set("c1", num(0)),
+			rec("r", call("mk"), call("c1"), call("c1"), v("x"), v("a"))),
 		// diamond: shared base, both middle templates call the base constructor
 		P(set("A", &MapLit{Keys: []*Lit{strLit("p"), strLit("l"), strLit("init"), strLit("get")}, Vals: []Expr{num(1), &ListLit{[]Expr{num(1)}},
 			fn(1, []string{"a"}, &Assign{Target: dot("this", "ia"), Rhs: v("a")}), fn(2, nil, &Return{dot("this", "p")})}}),
